@@ -50,7 +50,7 @@ def int (bits : Nat) : G Int := do let n ← nat bits; pure (toSigned bits n)
 /-- scalar values to draw text from: ASCII, Latin-1, 2/3/4-byte UTF-8, markup, delimiters' neighbours -/
 def textAlphabet : List Nat :=
   [0x41, 0x42, 0x61, 0x7a, 0x30, 0x39, 0x20, 0x5f, 0x2d, 0x2e, 0x3c, 0x26, 0x3e, 0x22, 0x27, 0x5c, 0x2f, 0x3b, 0x3a,
-   0x01, 0x1b, 0x7f, 0xe9, 0xff, 0x100, 0x20ac, 0x3042, 0xffff, 0x1f600, 0x10ffff, 0x5b, 0x5d, 0x28, 0x29, 0x0a, 0x09, 0xa7]
+   0x01, 0x1b, 0x7f, 0x85, 0x9b, 0xe9, 0xff, 0x100, 0x20ac, 0x3042, 0xffff, 0x1f600, 0x10ffff, 0x5b, 0x5d, 0x28, 0x29, 0x0a, 0x09, 0xa7]
 
 /-- a text (list of scalars) of length drawn from boundary-heavy lengths, avoiding the scalars in `avoid` -/
 def text (avoid : List Nat) (maxLen : Nat := 40) : G (List Nat) := do
